@@ -194,7 +194,7 @@ class Sim(object):
             now = CLOCK.t.get(name, core.EPOCH)
             for v in self.voters:
                 self.heard[name][v] = now
-        self.role_events.append((self.step_no, name, old, new, term))
+        self.role_events.append((self.step_no, name, old, new, term, set(self.member_set(name)) if name in self.nodes else set()))
 
     def on_apply(self, obj, method, cid):
         name = obj._simname
@@ -565,6 +565,12 @@ class Sim(object):
     def member_set(self, committer):
         return self.members
 
+    def majority_applies(self, name, p):
+        return True
+
+    def majority_alt(self, name, p, e):
+        return False
+
     def extend_model(self, upto):
         while self.model_pos < upto:
             p = self.model_pos + 1
@@ -647,9 +653,11 @@ class Sim(object):
             e = self.G.get(p)
             if e is None:
                 continue
+            if not self.majority_applies(name, p):
+                continue
             mem = self.member_set(name)
             cnt = sum(1 for v in mem if self.holds(v, p, e))
-            if cnt * 2 <= len(mem):
+            if cnt * 2 <= len(mem) and not self.majority_alt(name, p, e):
                 who = dict((v, (entry_at(self.nodes[v], p) or ('-', None, None))[1:] if v in self.nodes else 'down') for v in sorted(mem))
                 self.V('C04', 'commit-without-majority',
                        '%s advanced its commit index over position %d (term %d) but only %d of %d voters store it: %r' % (
@@ -698,13 +706,13 @@ class Sim(object):
             self.extend_model(max(self.G))
         self.check_callbacks()
         # leaders per term / leader completeness
-        for (step, name, old, new, term) in self.role_events:
+        for (step, name, old, new, term, mem_then) in self.role_events:
             if new == 2:
                 prevl = self.leader_of.get(term)
                 if prevl is not None and prevl != (name, self.incarnation[name]):
                     self.V('C03', 'two-leaders-in-term', '%s became leader of term %d, but %s already was' % (name, term, prevl[0]))
                 self.leader_of[term] = (name, self.incarnation[name])
-                mem = self.member_set(name)
+                mem = mem_then or self.member_set(name)
                 got = 1 + sum(1 for v in mem if v != name and name in self.votes_flat.get((v, term), ()))
                 if got * 2 <= len(mem) and not self.is_ro(name):
                     self.V('C03', 'leader-without-majority-of-votes',
